@@ -22,7 +22,7 @@
 (*                           parameters instead of the wallet's              *)
 (*   DupAddrImport           ImportAccount accepts an address that is        *)
 (*                           already in the wallet (second list entry)       *)
-(* Properties (C38): Persist, Opens.                                         *)
+(* Properties (C38): Persist, Opens, FailNoChange (save faults).             *)
 (***************************************************************************)
 EXTENDS Naturals, Sequences, FiniteSets, TLC
 
@@ -37,10 +37,10 @@ CONSTANTS ImportIds,   \* set of account ids (naturals) importable from outside
           MaxOps, Acts,
           NewIgnoresWalletScrypt, DupAddrImport
 
-VARIABLES accts, objs, addrIdx, labelIdx, dfltPtr, file, nnew, nops, act
+VARIABLES accts, objs, addrIdx, labelIdx, dfltPtr, file, nnew, fault, nops, act
 
-vars == <<accts, objs, addrIdx, labelIdx, dfltPtr, file, nnew, nops, act>>
-view == <<accts, objs, addrIdx, labelIdx, dfltPtr, file, nnew>>
+vars == <<accts, objs, addrIdx, labelIdx, dfltPtr, file, nnew, fault, nops, act>>
+view == <<accts, objs, addrIdx, labelIdx, dfltPtr, file, nnew, fault>>
 
 NewIds == {NewIdSeq[i] : i \in 1..Len(NewIdSeq)}
 AllIds == ImportIds \cup NewIds
@@ -85,10 +85,13 @@ FileView == ViewOf(LoadAccts(file), LoadObjs(file), LoadAddr(file), LoadLabel(fi
 
 Init == /\ accts = <<>> /\ objs = [o \in Oids |-> Null]
         /\ addrIdx = [x \in AllIds |-> 0] /\ labelIdx = [l \in AllLabels |-> 0]
-        /\ dfltPtr = 0 /\ file = <<>> /\ nnew = 0 /\ nops = 0
+        /\ dfltPtr = 0 /\ file = <<>> /\ nnew = 0 /\ fault = FALSE /\ nops = 0
         /\ act = [name |-> "Init"]
 
-Step(a) == nops < MaxOps /\ a.name \in Acts /\ nops' = nops + 1 /\ act' = a
+Step(a) == nops < MaxOps /\ a.name \in Acts /\ nops' = nops + 1 /\ act' = a /\ fault' = fault
+\* save() fails while fault holds (the wallet file cannot be written): the operation reports an error and rolls
+\* its in-memory changes back, so nothing changes -- neither what the client shows nor the file
+SaveFails(a) == Step(a @@ [res |-> "err"]) /\ UNCHANGED <<accts, objs, addrIdx, labelIdx, dfltPtr, file>>
 Refuse == UNCHANGED <<accts, objs, addrIdx, labelIdx, dfltPtr, file, nnew>>
 Save == file' = FileOf(accts', objs')
 
@@ -96,6 +99,7 @@ Save == file' = FileOf(accts', objs')
 AddAccountData(rec, a) ==
     IF rec.scheme \notin Schemes \/ (rec.label # "" /\ labelIdx[rec.label] # 0)
     THEN Step(a @@ [res |-> "err"]) /\ UNCHANGED <<accts, objs, addrIdx, labelIdx, dfltPtr, file>>
+    ELSE IF fault THEN SaveFails(a)
     ELSE LET o == Fresh
              r == [rec EXCEPT !.dflt = (Len(accts) = 0)]
          IN /\ Step(a @@ [res |-> "ok"])
@@ -135,6 +139,7 @@ Delete(x, p) ==
         o == addrIdx[x]
     IN IF o = 0 THEN Step(a @@ [res |-> "none"]) /\ Refuse
        ELSE IF objs[o].dflt \/ ~Decrypts(o, p) THEN Step(a @@ [res |-> "err"]) /\ Refuse
+       ELSE IF fault THEN SaveFails(a) /\ UNCHANGED nnew
        ELSE LET i == CHOOSE j \in 1..Len(accts) : objs[accts[j]].id = x
                                                   /\ \A k \in 1..(j - 1) : objs[accts[k]].id # x
                 ac == RemoveAt(accts, i)
@@ -152,6 +157,7 @@ SetDefault(x) ==
         o == addrIdx[x]
     IN IF dfltPtr # 0 /\ objs[dfltPtr].id = x THEN Step(a @@ [res |-> "ok"]) /\ Refuse
        ELSE IF o = 0 THEN Step(a @@ [res |-> "err"]) /\ Refuse
+       ELSE IF fault THEN SaveFails(a) /\ UNCHANGED nnew
        ELSE /\ Step(a @@ [res |-> "ok"])
             /\ objs' = [q \in Oids |-> IF q = o THEN [objs[q] EXCEPT !.dflt = TRUE]
                                        ELSE IF q = dfltPtr THEN [objs[q] EXCEPT !.dflt = FALSE]
@@ -165,6 +171,7 @@ SetLabel(x, l) ==
         o == addrIdx[x]
     IN IF labelIdx[l] # 0 \/ o = 0 THEN Step(a @@ [res |-> "err"]) /\ Refuse
        ELSE IF objs[o].label = l THEN Step(a @@ [res |-> "ok"]) /\ Refuse
+       ELSE IF fault THEN SaveFails(a) /\ UNCHANGED nnew
        ELSE /\ Step(a @@ [res |-> "ok"])
             /\ objs' = [objs EXCEPT ![o].label = l]
             /\ labelIdx' = [labelIdx EXCEPT ![objs[o].label] = 0, ![l] = o]
@@ -176,6 +183,7 @@ ChangePassword(x, p, q) ==
         o == addrIdx[x]
     IN IF p = q THEN Step(a @@ [res |-> "ok"]) /\ Refuse
        ELSE IF o = 0 \/ ~Decrypts(o, p) THEN Step(a @@ [res |-> "err"]) /\ Refuse
+       ELSE IF fault THEN SaveFails(a) /\ UNCHANGED nnew
        ELSE /\ Step(a @@ [res |-> "ok"])
             /\ objs' = [objs EXCEPT ![o].pwd = q, ![o].enc = WScrypt]
             /\ UNCHANGED <<accts, addrIdx, labelIdx, dfltPtr, nnew>> /\ Save
@@ -185,6 +193,7 @@ ChangeScheme(x, s) ==
     LET a == [name |-> "ChangeScheme", id |-> x, scheme |-> s]
         o == addrIdx[x]
     IN IF o = 0 \/ s \notin Schemes THEN Step(a @@ [res |-> "err"]) /\ Refuse
+       ELSE IF fault THEN SaveFails(a) /\ UNCHANGED nnew
        ELSE /\ Step(a @@ [res |-> "ok"])
             /\ objs' = [objs EXCEPT ![o].scheme = s]
             /\ UNCHANGED <<accts, addrIdx, labelIdx, dfltPtr, nnew>> /\ Save
@@ -196,7 +205,14 @@ Reload ==
     /\ labelIdx' = LoadLabel(file) /\ dfltPtr' = LoadDflt(file)
     /\ UNCHANGED <<file, nnew>>
 
-Next == \/ \E l \in ArgLabels, s \in Schemes \cup {BadScheme}, p \in Pwds : New(l, s, p)
+\* the environment: the wallet file becomes unwritable / writable again
+SetFault == /\ ~fault /\ nops < MaxOps /\ "SetFault" \in Acts /\ nops' = nops + 1 /\ fault' = TRUE
+            /\ act' = [name |-> "SetFault", res |-> "ok"] /\ Refuse
+ClearFault == /\ fault /\ nops < MaxOps /\ "ClearFault" \in Acts /\ nops' = nops + 1 /\ fault' = FALSE
+              /\ act' = [name |-> "ClearFault", res |-> "ok"] /\ Refuse
+
+Next == \/ SetFault \/ ClearFault
+        \/ \E l \in ArgLabels, s \in Schemes \cup {BadScheme}, p \in Pwds : New(l, s, p)
         \/ \E x \in ImportIds, l \in ArgLabels, p \in Pwds : Import(x, l, p)
         \/ \E x \in AllIds, p \in Pwds : Delete(x, p)
         \/ \E x \in AllIds : SetDefault(x)
@@ -213,6 +229,9 @@ TypeOK == /\ \A i \in 1..Len(accts) : accts[i] \in Oids /\ objs[accts[i]].id \in
           /\ dfltPtr \in Oids \cup {0}
 \* every successful operation has been saved
 Saved == file = FileOf(accts, objs)
+\* C38: an operation that reports an error (a failed save in particular) changes nothing: the client shows what it
+\* showed before, and the file is untouched -- so the next successful save persists the old passwords
+FailNoChange == [][act'.res = "err" => UNCHANGED <<accts, objs, addrIdx, labelIdx, dfltPtr, file>>]_vars
 \* C38: save + reload shows the same accounts with the same metadata (and opens the same)
 Persist == FileView = MemView
 \* C38: every listed account opens with exactly its current password
@@ -223,5 +242,5 @@ OneDefault == /\ Cardinality({i \in 1..Len(accts) : objs[accts[i]].dflt}) <= 1
 
 \* exported state: every VIEW variable except file, which is FileOf(accts, objs) by invariant Saved
 State == [accts |-> accts, objs |-> objs, addrIdx |-> addrIdx, labelIdx |-> labelIdx, dfltPtr |-> dfltPtr,
-          nnew |-> nnew]
+          nnew |-> nnew, fault |-> fault]
 =============================================================================
